@@ -84,7 +84,7 @@ fn c10_send_sync() {
     assert!(d.send_event <= 1 && !d.overflow, "C10: more than one event send in one action set");
     if code == ST_MASTER {
         assert!(d.n == 2 && d.send_event == 1 && d.reset_sync == 1, "C10/C12: master must emit a Sync and re-arm the sync timer");
-        assert!(d.dur_sync == core::time::Duration::from_secs(1), "C12: sync timer re-armed with the configured interval");
+        assert!(d.dur_sync == core::time::Duration::new(1, 0), "C12: sync timer re-armed with the configured interval");
         assert!(sent_is_serialized(&port, d.event_len, 44), "C10: the sent frame is not the serialized Sync");
         let h = ser_header().unwrap();
         assert!(own_header_ok(&h, &cfg, &state, seq0), "C10: Sync header (identity / domain / sdoId / version / sequence id)");
